@@ -23,6 +23,16 @@ type Cluster struct {
 	Panics   []string  // Gossiper callbacks that panicked (process exit in the real mesh)
 	gen      []int     // restart generation per node
 	routeNet map[string]int
+	names    []string // mesh names of the nodes
+}
+
+// namePools: the mesh names a run's brokers carry. Names derived from hardware addresses have
+// arbitrary bytes: above 0x7f, and the ones a pattern matcher would take for '*', '?' or '\\'.
+var namePools = [][]string{
+	{"00:00:00:00:00:01", "00:00:00:00:00:02", "00:00:00:00:00:03", "00:00:00:00:00:04"},
+	{"00:00:00:00:00:01", "00:00:00:00:00:02", "00:00:00:00:00:03", "00:00:00:00:00:04"},
+	{"02:42:ac:11:00:a5", "02:42:ac:11:00:80", "02:42:ac:11:00:ff", "02:42:ac:11:00:c3"},
+	{"02:42:ac:11:2a:05", "de:ad:be:ef:5c:ff", "02:42:ac:3f:00:2a", "5c:2a:3f:5b:5d:7f"},
 }
 
 // NodeName is the mesh name of node i.
@@ -34,6 +44,10 @@ func NodeAddr(i int) string { return fmt.Sprintf("10.0.0.%d:4000", i+1) }
 // NewCluster creates the simulated mesh and n brokers (not yet linked).
 func NewCluster(c *kernel.Ctx, n int, lic Lic, tweak func(i int, o *BrokerOpts)) *Cluster {
 	cl := &Cluster{C: c, Lic: lic, gen: make([]int, n), routeNet: map[string]int{}}
+	cl.names = namePools[c.Tape.Choose(len(namePools))]
+	if cl.names[0] != NodeName(0) {
+		c.Probe("mesh-names-with-arbitrary-bytes")
+	}
 	c.PreLog = append(c.PreLog, func() {
 		for k, v := range cl.routeNet {
 			if v != 0 {
@@ -53,7 +67,7 @@ func NewCluster(c *kernel.Ctx, n int, lic Lic, tweak func(i int, o *BrokerOpts))
 	})
 	mesh.Net = cl.Net
 	for i := 0; i < n; i++ {
-		o := BrokerOpts{Lic: lic, Cluster: true, NodeName: NodeName(i), Advertise: NodeAddr(i),
+		o := BrokerOpts{Lic: lic, Cluster: true, NodeName: cl.names[i], Advertise: NodeAddr(i),
 			StateDir: filepath.Join(c.Scratch, fmt.Sprintf("state%d", i)), Seed: NodeAddr(0)}
 		if i == 0 {
 			o.Seed = NodeAddr(1)
@@ -94,7 +108,7 @@ func (cl *Cluster) Start(i int) *Broker {
 
 // Name returns the mesh peer name of node i.
 func (cl *Cluster) Name(i int) mesh.PeerName {
-	n, _ := mesh.PeerNameFromString(NodeName(i))
+	n, _ := mesh.PeerNameFromString(cl.names[i])
 	return n
 }
 
